@@ -82,6 +82,8 @@ def configs(draw, wrappers=("interval",), allow_cache0=True, allow_dt=True, allo
         if allow_user:
             cfg["user_W"] = draw(_one_in(5))
             cfg["user_H"] = draw(_one_in(5)) and lv != "none"
+        # the documented `device` argument (str or torch.device), also together with a user-supplied W / H
+        cfg["device"] = draw(st.sampled_from([None, None, None, "cpu", "torch.device:cpu"]))
     elif wrapper == "tree":
         cfg["halfway"] = True
         cfg["tol"] = draw(st.sampled_from(TOLS))
@@ -330,6 +332,8 @@ def build(cfg, torchsde, torch):
                   halfway_tree=cfg["halfway"], W=None if W is None else W.clone(), H=None if H is None else H.clone())
         if cfg["dt"] is not None:
             kw["dt"] = cfg["dt"]
+        if cfg.get("device"):
+            kw["device"] = torch.device("cpu") if cfg["device"].startswith("torch.device") else cfg["device"]
         if "pool_size" in cfg:
             kw["pool_size"] = cfg["pool_size"]
         interval = torchsde.BrownianInterval(**kw)
